@@ -46,7 +46,8 @@ ASSUMPTIONS = [
 PARAMS = [('inside', 'field'), ('straddle-top', 'two-knots'),
           ('all-below', 'five-knots'), ('seven-knots', 'five-knots'),
           ('published', 'published-high'), ('corner', 'other'),
-          ('long-digits', 'long-digits'), ('overshoot', 'field')]
+          ('long-digits', 'long-digits'), ('overshoot', 'field'),
+          ('twelve-knots', 'eleven-knots')]
 CURVATURE = 2.36
 MANT = '1234567890123456789'
 EXPONENTS = [-300, -100, -10, -5, -4, -3, -2, -1, 0, 1, 2, 5, 15, 16, 17, 22,
@@ -84,6 +85,19 @@ def spaces(tier):
         which, p, sub = files[i]
         return {'kind': 'files', 'dataset': which, 'params': list(PARAMS[p]),
                 'subtask': sub}
+    crafted = list(itertools.product(range(len(CRAFTED)), (0, 4),
+                                     ('rise', 'curves')))
+
+    def decode_crafted(i):
+        k, p, sub = crafted[i]
+        return {'kind': 'files', 'dataset': 0, 'crafted': k,
+                'params': list(PARAMS[p]), 'subtask': sub}
+    libseq = list(itertools.product(range(len(simdata.WORDS)), (0, 3, 4)))
+
+    def decode_lib(i):
+        which, p = libseq[i]
+        return {'kind': 'library', 'dataset': which,
+                'params': list(PARAMS[p])}
     values = alphabet()
     batch = 4
     nb = -(-len(values) // batch)
@@ -95,6 +109,12 @@ def spaces(tier):
                 'values': values[b * batch:(b + 1) * batch]}
     return [Space('pestfiles + simulate/datasets x parameter files x '
                   'subtask', len(files), decode),
+            Space('pestfiles + simulate on crafted master-curve tables '
+                  '(exact zeros, signed zero, tiny, long values)',
+                  len(crafted), decode_crafted),
+            Space('pestfiles functions on one connection, files generated '
+                  'before and after the recession curve is assembled',
+                  len(libseq), decode_lib),
             Space('float formats through the simulate writers', len(fm),
                   decode_fmt, '%d values in batches of %d'
                   % (len(values), batch))]
@@ -136,12 +156,57 @@ def flat_parameters(pars, subtask):
     return out
 
 
+def crafted_db(which, values):
+    """A dataset whose master-curve views hold exactly the given values:
+    one rising and one recession interval with zero offset and the values as
+    crossings at consecutive levels"""
+    db = simdata.materialise(which, curvature=CURVATURE, name='crafted')
+    c = sqlite3.connect(db)
+    levels = [r[0] for r in c.execute(
+        'SELECT zeta_number FROM discrete_zeta ORDER BY 1')][2:2 + len(values)]
+    (rise_start,) = c.execute(
+        'SELECT interval_start_epoch FROM zeta_interval_storm LIMIT 1'
+    ).fetchone()
+    (rec_start,) = c.execute(
+        "SELECT start_epoch FROM zeta_interval WHERE interval_type = "
+        "'interstorm' LIMIT 1").fetchone()
+    for table in ('rising_interval_zeta', 'rising_interval',
+                  'recession_interval_zeta', 'recession_interval'):
+        c.execute('DELETE FROM %s' % table)
+    c.execute('INSERT INTO rising_interval (start_epoch, '
+              'rain_depth_offset_mm) VALUES (?, 0.0)', (rise_start,))
+    c.execute('INSERT INTO recession_interval (start_epoch, time_offset_s) '
+              'VALUES (?, 0.0)', (rec_start,))
+    for n, v in zip(levels, values):
+        c.execute('INSERT INTO rising_interval_zeta VALUES (?, ?, ?)',
+                  (rise_start, n, v))
+        # the view divides by 86400: store a multiple so that the measured
+        # time in days is exactly v
+        c.execute('INSERT INTO recession_interval_zeta VALUES (?, ?, ?)',
+                  (rec_start, n, v * 86400.0))
+    c.commit()
+    c.close()
+    return db
+
+
+CRAFTED = [
+    [0.0, 1.5, -2.25, 3.0],
+    [-1.0, -0.0, 0.5, 2.0, 4.0],
+    [1e-300, 0.0, 0.0, 1.0],
+    [0.1, 0.2, 0.30000000000000004, 123456789.12345679, -1e-7],
+    [5.0, 0.0],
+]
+
+
 def run_files(case):
     pars = simdata.parameters(*case['params'])
     sub = case['subtask']
-    db = simdata.materialise(case['dataset'], curvature=CURVATURE)
+    if case.get('crafted') is not None:
+        db = crafted_db(case['dataset'], CRAFTED[case['crafted']])
+    else:
+        db = simdata.materialise(case['dataset'], curvature=CURVATURE)
     ypath = simdata.write_yaml(pars)
-    viol = []
+    rec_table = rec_vec = None
     try:
         files = {}
         for kind in ('tpl', 'ins', 'pst'):
@@ -157,18 +222,82 @@ def run_files(case):
             rec_vec = run_to_text(['simulate', 'recession', db, ypath,
                                    '--observations'], 'cv')
         connection = sqlite3.connect(db)
-        view_rise = dict(connection.execute(
-            'SELECT zeta_mm, mean_crossing_depth_mm FROM '
-            'average_rising_depth'))
-        view_rec = dict(connection.execute(
-            'SELECT zeta_mm, CAST(elapsed_time_s AS double precision) / '
-            '(3600 * 24) FROM average_recession_time'))
+        view_rise, view_rec = read_views(connection)
         connection.close()
     except (RuntimeError, pest.PestError, yaml.YAMLError) as exc:
         os.unlink(db)
         return Result(viol=[('command-failed', repr(exc)[:300])],
                       nontrivial=True, outcome='exc')
     os.unlink(db)
+    return cross_check(case, pars, sub, files, rise_table, rise_vec,
+                       rec_table, rec_vec, view_rise, view_rec)
+
+
+def read_views(connection):
+    view_rise = dict(connection.execute(
+        'SELECT zeta_mm, mean_crossing_depth_mm FROM '
+        'average_rising_depth'))
+    view_rec = dict(connection.execute(
+        'SELECT zeta_mm, CAST(elapsed_time_s AS double precision) / '
+        '(3600 * 24) FROM average_recession_time'))
+    return view_rise, view_rec
+
+
+def run_library_sequence(case):
+    """The same functions on ONE connection, with the files generated twice
+    around the assembly of the recession curve"""
+    import io
+    import spowtd.pestfiles as pestfiles_mod
+    import spowtd.recession as recession_mod
+    pars = simdata.parameters(*case['params'])
+    text = yaml.safe_dump(pars)
+    connection = simdata.memory(case['dataset'], curvature=CURVATURE)
+    for table in ('recession_interval_zeta', 'recession_interval'):
+        connection.execute('DELETE FROM %s' % table)
+    connection.commit()
+
+    def generate(sub, kind):
+        out = io.StringIO(newline='')
+        fn = (pestfiles_mod.generate_rise_pestfiles if sub == 'rise'
+              else pestfiles_mod.generate_curves_pestfiles)
+        fn(connection, io.StringIO(text), kind, None, out)
+        return out.getvalue()
+
+    def simulate(which, observations):
+        out = io.StringIO()
+        if which == 'rise':
+            sim_rise_mod.simulate_rise(connection, io.StringIO(text), out,
+                                       observations)
+        else:
+            sim_rec_mod.dump_simulated_recession(
+                connection, io.StringIO(text), out, observations)
+        return out.getvalue()
+    try:
+        # first generation: rise curve only (results are discarded, the
+        # point is that they were asked for)
+        for kind in ('tpl', 'ins', 'pst'):
+            generate('rise', kind)
+        generate('curves', 'ins')
+        recession_mod.find_recession_offsets(connection)
+        files = {kind: generate('curves', kind)
+                 for kind in ('tpl', 'ins', 'pst')}
+        rise_table = yaml.safe_load(simulate('rise', False))
+        rise_vec = simulate('rise', True)
+        rec_table = yaml.safe_load(simulate('recession', False))
+        rec_vec = simulate('recession', True)
+        view_rise, view_rec = read_views(connection)
+    except Exception as exc:  # pylint: disable=broad-except
+        connection.close()
+        return Result(viol=[('library-call-failed', repr(exc)[:300])],
+                      nontrivial=True, outcome='exc')
+    connection.close()
+    return cross_check(case, pars, 'curves', files, rise_table, rise_vec,
+                       rec_table, rec_vec, view_rise, view_rec)
+
+
+def cross_check(case, pars, sub, files, rise_table, rise_vec, rec_table,
+                rec_vec, view_rise, view_rec):
+    viol = []
     try:
         pst = pest.parse_pst(files['pst'])
         delim, _, fields = pest.parse_tpl(files['tpl'])
@@ -271,7 +400,9 @@ def run_files(case):
     seen = set()
     viol = [v for v in viol if not (v[0] in seen or seen.add(v[0]))]
     return Result(viol=viol, nontrivial=True,
-                  outcome='%s/%d/%r' % (sub, case['dataset'], case['params']),
+                  outcome='%s/%r/%r/%r' % (sub, case['dataset'],
+                                           case.get('crafted'),
+                                           case['params']),
                   obs={'observations': len(obs), 'parameters':
                        len(pst['parameters'])})
 
@@ -368,4 +499,6 @@ def run_format(case):
 def run_case(case):
     if case['kind'] == 'files':
         return run_files(case)
+    if case['kind'] == 'library':
+        return run_library_sequence(case)
     return run_format(case)
